@@ -44,6 +44,14 @@ BumpAll(c, ws) ==
        BumpAll(Bump(c, Key(w, x), y), ws \ {w})
 
 Wires == WiresOf(cur.circ, H)
+\* second order, for parties with a few input wires: the own mask shares of two DIFFERENT wires are independent, so their
+\* XOR is balanced too (key << grp, a, 100 + b >>)
+PairsOf(ws) == IF Cardinality(ws) <= 4 THEN { pr \in ws \X ws : pr[1] < pr[2] } ELSE {}
+RECURSIVE BumpPairs(_, _, _)
+BumpPairs(c, ps, ov) ==
+  IF ps = {} THEN c
+  ELSE LET pr == CHOOSE x \in ps : TRUE IN
+       BumpPairs(Bump(c, << cur.tag.grp, pr[1], 100 + pr[2] >>, (ov[pr[1]] + ov[pr[2]]) % 2), ps \ {pr}, ov)
 OwnVec == [w \in Wires |-> (masked[w] + others[w] + (IF InputBit(cur.circ, cur.inputs, H, w) THEN 1 ELSE 0)) % 2]
 MaskedEqualsInput == \A w \in Wires : masked[w] = (IF InputBit(cur.circ, cur.inputs, H, w) THEN 1 ELSE 0)
 MaskedEqualsComplement == \A w \in Wires : masked[w] # (IF InputBit(cur.circ, cur.inputs, H, w) THEN 1 ELSE 0)
@@ -65,6 +73,9 @@ RunBad ==
     THEN "the party's own mask shares repeat mask shares it disclosed to others (one random stream replayed)"
   ELSE IF e.ev = "end" /\ cur.tag.canary /\ (MaskedEqualsInput \/ MaskedEqualsComplement)
     THEN "the broadcast vector equals the plain input bits (or their complement)"
+  ELSE IF e.ev = "end" /\ cur.tag.canary /\ Cardinality(Wires) >= 64 /\ (\A w \in Wires : masked[w] # 2)
+          /\ (LET ov == OwnVec IN \A a, b \in Wires : ov[a] = ov[b])
+    THEN "the own mask shares of all input wires of the party are equal"
   ELSE IF e.ev = "canary" /\ e.hits > 0 THEN "the plain input bits appear in the party's traffic"
   ELSE ""
 
@@ -72,7 +83,10 @@ Unbalanced == { k \in DOMAIN cnt : cnt[k].n >= 100 /\ (2 * cnt[k].ones - cnt[k].
 FinalBad ==
   IF Unbalanced # {} THEN
     LET k == CHOOSE x \in Unbalanced : TRUE IN
-    "input XOR own mask share is not balanced: group " \o k[1] \o " wire " \o ToString(k[2]) \o " input " \o ToString(k[3])
+    IF k[3] >= 100
+    THEN "own mask shares of two input wires are correlated: group " \o k[1] \o " wires " \o ToString(k[2]) \o ", " \o ToString(k[3] - 100)
+         \o ": XOR is 1 in " \o ToString(cnt[k].ones) \o " of " \o ToString(cnt[k].n) \o " runs"
+    ELSE "input XOR own mask share is not balanced: group " \o k[1] \o " wire " \o ToString(k[2]) \o " input " \o ToString(k[3])
     \o ": " \o ToString(cnt[k].ones) \o " ones in " \o ToString(cnt[k].n) \o " runs"
   ELSE IF Cardinality(deltas) # ndelta THEN "two executions or parties used the same global key"
   ELSE IF Cardinality(owns) # nown THEN "two executions used the same own-mask vector"
@@ -92,7 +106,7 @@ Next ==
              ELSE IF e.ev = "msg" /\ e.ph = "wire shares" /\ e.from = H
                   THEN sent \o SelectSeq([k \in 1..Len(e.v) |-> IF e.v[k].some THEN e.v[k].v[1] ELSE 2], LAMBDA b : b # 2)
              ELSE sent
-  /\ cnt' = IF e.ev = "end" /\ ~cur.tag.canary /\ (\A w \in Wires : masked[w] # 2) THEN BumpAll(cnt, Wires) ELSE cnt
+  /\ cnt' = IF e.ev = "end" /\ ~cur.tag.canary /\ (\A w \in Wires : masked[w] # 2) THEN BumpPairs(BumpAll(cnt, Wires), PairsOf(Wires), OwnVec) ELSE cnt
   /\ deltas' = IF e.ev = "probe" /\ e.name = "delta" THEN deltas \cup {e.vals[1]} ELSE deltas
   /\ ndelta' = IF e.ev = "probe" /\ e.name = "delta" THEN ndelta + 1 ELSE ndelta
   /\ owns' = IF e.ev = "end" /\ cur.tag.canary THEN owns \cup {OwnVec} ELSE owns
